@@ -668,6 +668,146 @@ def prepare_keys(jobs):
                 j['cands'] = [['pkh', 0, j['p']], ['wit', 0, j['p']]]
 
 
+# ------------------------------------------------------------------------------------------------ argument space
+
+ARG_BASES = [('pkh', 0, 20), ('sh', 0, 20), ('wit', 0, 20), ('wit', 0, 32), ('wit', 1, 32), ('wit', 'v', 32)]
+
+
+def _addr_req(x, d, ph):
+    return ('addr', x, d[0], d[1], ph), {'what': 'addr', 'x': x, 'y': x, 'dk': d[0], 'wv': d[1], 'p': list(bytes.fromhex(ph)),
+                                         'mut': '', 'wt': '', 'ms': False, 'pub': [], 'st': ''}
+
+
+def enumerate_arg_jobs(rng, thorough, nets, per_cell):
+    """(G) TLC enumerates the abstract calls of the argument space (AddrScriptArgs.tla: ArgCalls / ArgApplies); every
+    network x base destination kind gets a seeded sample of them (thorough: all of them on the sweep networks), made
+    concrete with fresh payload atoms.  Returns the jobs; each names the builds (addresses / scripts by TLC) it needs."""
+    kinds = {}
+    for dk, wv, n in ARG_BASES:
+        kinds[(dk, wv, n)] = {'k': 'build', 'what': 'argspace', 'x': '', 'y': '', 'dk': dk, 'wv': 2 if wv == 'v' else wv,
+                              'p': [7] * n, 'mut': '', 'wt': '', 'ms': False, 'pub': [], 'st': '', 'facts': []}
+    outs = common.tlc_eval('AddrScriptEval', list(kinds.values()), env=JVM_ENV, procs=min(3, common.NCPU))
+    calls = {}
+    for kk, o in zip(kinds, outs):
+        if o['v'] != 'ok':
+            raise common.MachineryError('argspace %r: %s' % (kk, o['v']))
+        calls[kk] = sorted(o['exp']['calls'], key=lambda c: json.dumps(c, sort_keys=True))
+    jobs = []
+    sweep = set(nets[:1] + nets[7:9])
+    for y in nets:
+        for base in ARG_BASES:
+            cl = calls[base]
+            if thorough and y in sweep:
+                pick = cl
+            else:
+                pick = rng.sample(cl, min(per_cell, len(cl)))
+            dk, wv, n = base
+            v = rng.randrange(2, 17) if wv == 'v' else wv
+            keyed = dk == 'pkh' or (dk == 'wit' and v == 0 and n == 20)
+            seed, seed1 = payload(rng, 32, 'rand').hex(), payload(rng, 32, 'rand').hex()
+            h = payload(rng, n, 'rand').hex()
+            h1 = payload(rng, n, 'rand').hex()
+            x = rng.choice([m for m in nets if m != y])
+            for c in pick:
+                jobs.append({'route': 'args', 'x': x, 'y': y, 'dk': dk, 'wv': v, 'p': h, 'p1': h1, 'st': '', 'mut': '', 'wt': '',
+                             'keyed': keyed, 'seed': seed, 'seed1': seed1, 'call': c,
+                             'txwt': rng.choice(TXWT) if c['c']['via'] == 'tx' else ''})
+    return jobs, sum(len(v) for v in calls.values())
+
+
+def prepare_arg_jobs(jobs):
+    """Key-hash bases: the payload is HASH160 of the key of the job's seed (the key may be handed over as bytes or as an
+    HD key object).  Lists the builds each job needs."""
+    from bitcoinlib.keys import HDKey
+    cache = {}
+
+    def pub(seed):
+        if seed not in cache:
+            cache[seed] = HDKey.from_seed(bytes.fromhex(seed)).public_byte
+        return cache[seed]
+    for j in jobs:
+        if j['route'] != 'args' or 'bk' in j:
+            continue
+        if j['keyed']:
+            j['pub'] = pub(j['seed']).hex()
+            j['p'] = ref.hash160(pub(j['seed'])).hex()
+        j['pub1'] = pub(j['seed1']).hex()
+        j['kh1'] = ref.hash160(pub(j['seed1'])).hex()
+        d = (j['dk'], j['wv'])
+        bk = {'d0': _addr_req(j['y'], d, j['p']), 'd1': _addr_req(j['y'], d, j['p1']), 'for': _addr_req(j['x'], d, j['p'])}
+        if len(j['p']) == 40:
+            for nm, ph in (('p', j['p']), ('p1', j['p1']), ('k1', j['kh1'])):
+                bk['pkh_' + nm] = _addr_req(j['y'], ('pkh', 0), ph)
+                bk['sh_' + nm] = _addr_req(j['y'], ('sh', 0), ph)
+        j['bk'] = bk
+
+
+def drive_args(job, b):
+    """One call of the argument space against bitcoinlib.  b: name -> build result."""
+    from bitcoinlib.transactions import Output
+    from bitcoinlib.keys import Address, HDKey
+    c, cc, y = job['call'], job['call']['c'], job['y']
+    h, h1 = bytes.fromhex(job['p']), bytes.fromhex(job['p1'])
+    kw = {}
+    a = ''
+    try:
+        if cc['addr'] == 'str':
+            a = kw['address'] = text(b['d0']['addr'])
+        elif cc['addr'] == 'other':
+            a = kw['address'] = text(b['d1']['addr'])
+        elif cc['addr'] == 'foreign':
+            a = kw['address'] = text(b['for']['addr'])
+        elif cc['addr'] == 'obj':
+            akw = {'witver': job['wv']} if job['dk'] == 'wit' and job['wv'] >= 1 else {}
+            kw['address'] = Address(hashed_data=h, script_type=lib_type(job['dk'], job['wv'], len(h)), network=y, **akw)
+            a = kw['address'].address
+        elif cc['addr'] == 'hdkey':
+            wt = 'legacy' if job['dk'] == 'pkh' else 'segwit'
+            kw['address'] = HDKey.from_seed(bytes.fromhex(job['seed']), witness_type=wt, network=y)
+            a = HDKey.from_seed(bytes.fromhex(job['seed']), witness_type=wt, network=y).address()
+    except Exception:
+        raise common.MachineryError('cannot make the address argument of %r' % (job,))
+    if cc['hash'] != 'none':
+        kw['public_hash'] = h if cc['hash'] == 'match' else h1
+    kh = b''
+    if cc['key'] != 'none':
+        kw['public_key'] = bytes.fromhex(job['pub'] if cc['key'] == 'match' else job['pub1'])
+        kh = h if cc['key'] == 'match' else bytes.fromhex(job['kh1'])
+    elif cc['addr'] == 'hdkey':
+        kh = h
+    lock = b''
+    if cc['lock'] != 'none':
+        lock = kw['lock_script'] = bytes(b['d0' if cc['lock'] == 'match' else 'd1']['script'])
+    if c['enc']:
+        kw['encoding'] = c['enc']
+    if cc['via'] == 'tx':
+        def mk():
+            t = new_tx(job)
+            t.add_output(1000, **kw)
+            return t.outputs[-1]
+    else:
+        if c['st']:
+            kw['script_type'] = c['st']
+        if c['wt']:
+            kw['witness_type'] = c['wt']
+        if c['wv'] >= 0:
+            kw['witver'] = c['wv']
+
+        def mk():
+            return Output(1000, network=y, **kw)
+    facts, seen = [], set()
+    for r in b.values():
+        for f in r['facts']:
+            fk = (f['f'], bytes(f['x']))
+            if fk not in seen:
+                seen.add(fk)
+                facts.append(f)
+    viatx = cc['via'] == 'tx'
+    return {'k': 'args', 'route': 'args', 'y': y, 'a': codes(a), 'h': list(kw.get('public_hash', b'')), 'kh': list(kh),
+            'st': '' if viatx else c['st'], 'enc': c['enc'], 'wt': '' if viatx else c['wt'], 'wv': -1 if viatx else c['wv'],
+            'lock': list(lock), 'obs': _observe(mk, y), 'facts': facts}
+
+
 def klass(job, b):
     rel = 'same' if job['x'] == job['y'] else 'other'
     return (job['route'], job['dk'] or job['wt'], job['wv'], len(job['p']) // 2, job['mut'], job['st'], job['x'],
@@ -695,6 +835,9 @@ def run(replay=None):
                       'public key bytes of key routes are taken from the library (key derivation belongs to C03/C04)',
                       'every witness program of version >= 1 may be named "p2tr"+witver by the library (its convention)',
                       'corrupted / non-canonical address strings belong to C11',
+                      'argument space (AddrScriptArgs.tla): witness_type is a hint, not a source; witver counts together with '
+                      'script_type p2tr; at most two arguments disagree with the base destination; the quick tier replays a '
+                      'seeded sample of the calls per network x base kind, the thorough tier all of them on three networks',
                       'an answer for a future witness version may be a refusal, but then for every version 2..16 of that '
                       'program size alike (judged per route and network for the sizes 20 and 32)']
 
@@ -702,6 +845,8 @@ def run(replay=None):
                                 env=JVM_ENV, workers=min(8, common.NCPU),
                                 expect_actions=['Encode', 'Decode', 'Pay', 'Report']))
 
+    ck.model(common.model_check('MC_AddrScriptArgs', 'MC_AddrScriptArgs.cfg', env=JVM_ENV, workers=min(8, common.NCPU),
+                                expect_actions=['Resolve']))
     lap('model checked')
     nets = [n for n in NETS if n in bn.NETWORK_DEFINITIONS]
     skipped = [n for n in NETS if n not in nets] + [n for n in bn.NETWORK_DEFINITIONS if n not in NETS]
@@ -711,11 +856,20 @@ def run(replay=None):
     else:
         # the uncompressed-address queries are a class with a finding of its own; it is driven once that finding is listed
         jobs = enumerate_jobs(ck.rng, thorough, nets, allow_uncompressed=UNCOMPRESSED_KEY in ck.known)
+        ajobs, ncalls = enumerate_arg_jobs(ck.rng, thorough, nets, per_cell=100)
+        jobs += ajobs
+        ck.notes['argument_space_calls_enumerated_by_TLC'] = ncalls
     prepare_keys(jobs)
+    prepare_arg_jobs(jobs)
 
     reqs = {}
     keys = []
     for j in jobs:
+        if j['route'] == 'args':
+            keys.append(None)
+            for k, r in j['bk'].values():
+                reqs.setdefault(k, r)
+            continue
         k, r = build_key(j)
         keys.append(k)
         reqs.setdefault(k, r)
@@ -723,13 +877,18 @@ def run(replay=None):
     lap('%d inputs built by TLC' % len(reqs))
 
     parsed = drive_parsers(jobs, keys, built)
-    recs = [drive(j, built[k], parsed.get(i)) for i, (j, k) in enumerate(zip(jobs, keys))]
+    recs = [drive_args(j, {n: built[kr[0]] for n, kr in j['bk'].items()}) if j['route'] == 'args'
+            else drive(j, built[k], parsed.get(i)) for i, (j, k) in enumerate(zip(jobs, keys))]
     lap('%d jobs driven' % len(jobs))
     verdicts = common.tlc_eval('AddrScriptEval', recs, env=JVM_ENV, procs=min(8 if not thorough else 16, common.NCPU))
     lap('judged')
     nrefused = 0
     for j, k, rec, v in zip(jobs, keys, recs, verdicts):
-        ck.case(klass(j, built[k]))
+        if rec['k'] == 'args':
+            cc = j['call']['c']
+            ck.case(('args', j['y'], j['dk'], j['wv'] if j['wv'] < 2 else 2) + tuple(cc[f] for f in sorted(cc)))
+        else:
+            ck.case(klass(j, built[k]))
         if not rec['obs']['ok']:
             nrefused += 1
         if v['v'] != 'ok':
@@ -748,6 +907,14 @@ def run(replay=None):
                     what += ' [transaction witness_type %s]' % j['txwt']
                 if rec['prior'] or j.get('x0'):
                     what += ' [object created on %s, earlier calls on it: %s]' % (j.get('x0') or j['x'], ', '.join(rec['prior']))
+            elif rec['k'] == 'args':
+                cc = j['call']['c']
+                what = ('%s on %s for base %s/v%d/%s with %s [address %s, public_hash %s, key hash %s, script_type %s, '
+                        'encoding %s, witness_type %s, witver %s, lock_script %s]' % (
+                            'add_output' if cc['via'] == 'tx' else 'Output', j['y'], j['dk'], j['wv'], j['p'],
+                            ' '.join('%s=%s' % (f, cc[f]) for f in sorted(cc) if cc[f] != 'none'), text(rec['a']) or '-',
+                            bytes(rec['h']).hex() or '-', bytes(rec['kh']).hex() or '-', rec['st'] or '-', rec['enc'] or '-',
+                            rec['wt'] or '-', rec['wv'], bytes(rec['lock']).hex() or '-'))
             elif rec['k'] == 'any':
                 what = 'Transaction(network=%s, witness_type=%s).add_output via %s of %s (no script type)' % (
                     j['y'], j.get('txwt') or 'default', j['route'], j['p'])
@@ -769,7 +936,7 @@ def run(replay=None):
                 or j.get('prior') or j.get('st') not in ('', 'p2tr'):
             continue
         n = len(j['p']) // 2
-        if rec['k'] == 'any':
+        if rec['k'] in ('any', 'args'):
             continue
         if rec['k'] == 'rev' and n not in (20, 32):
             continue      # other sizes: whether the parser re-reads the program as a sub-script depends on its bytes (C18)
@@ -793,7 +960,7 @@ def run(replay=None):
         if jobs:
             r = recs[i]
             ck.sample({'job': {k: v for k, v in jobs[i].items() if v not in ('', None)},
-                       'input': text(r['a0']) if r['k'] == 'fwd' else bytes(r.get('s', [])).hex(),
+                       'input': text(r['a0']) if r['k'] == 'fwd' else text(r['a']) if r['k'] == 'args' else bytes(r.get('s', [])).hex(),
                        'observed': {'ok': r['obs']['ok'], 'lock': bytes(r['obs']['lock']).hex(), 'type': r['obs']['type'],
                                     'address': text(r['obs']['addr'])}, 'verdict': verdicts[i]['v']}, limit=5)
     ck.notes['builds'] = len(reqs)
